@@ -8,6 +8,7 @@
 pub mod inv;
 pub mod model;
 pub mod sinks;
+pub mod term;
 
 #[cfg(kani)]
 mod c02_utf8;
@@ -21,3 +22,25 @@ mod c17_scalars;
 mod c07_tokens;
 #[cfg(kani)]
 mod c08_args;
+#[cfg(all(kani, feature = "autocomplete"))]
+mod c11_complete;
+#[cfg(all(kani, feature = "help"))]
+mod c12_help;
+#[cfg(kani)]
+mod c13_output;
+#[cfg(all(kani, feature = "history"))]
+mod c10_history;
+#[cfg(all(kani, feature = "autocomplete"))]
+mod c11_derived;
+#[cfg(kani)]
+mod cli_common;
+#[cfg(kani)]
+mod cli_steps;
+#[cfg(kani)]
+mod cli_term;
+#[cfg(kani)]
+mod cli_fail;
+#[cfg(kani)]
+mod cli_glue;
+#[cfg(kani)]
+mod c09_derive;
